@@ -61,9 +61,9 @@ def observe(mh, mb, reads):
     ch.requests = _LogList(log)
     orig = ch.send_continue
 
-    def send_continue():
+    def send_continue(*a, **k):
         log.append(("continue", bool(ch.request.completed)))
-        orig()
+        orig(*a, **k)
     ch.send_continue = send_continue
     exc = None
     for d in reads:
